@@ -181,9 +181,7 @@ Section Generic.
   Proof. induction l as [ | [k2 v] r IH ]; intros k; cbn; [ reflexivity | rewrite IH; reflexivity ]. Qed.
 
   Lemma kw_eqb_geqb a b : kw_eqb A aeq a b = geqb string String.eqb A aeq a b.
-  Proof.
-    unfold kw_eqb, geqb. f_equal. apply forallb_ext. intros kv. rewrite kw_look_glook. reflexivity.
-  Qed.
+  Proof. reflexivity. Qed.
 
   (* the callable arguments stored in a leaf / a tree *)
   Definition leaf_args (l : leaf A) : list A := l_args l ++ map snd (l_kwargs l).
@@ -221,7 +219,10 @@ Section Generic.
 
   (* more generally: swapping the operands of either side never changes the answer *)
   Theorem cond_eqb_commute_l o a b c : cond_eqb A aeq (CBin o a b) c = cond_eqb A aeq (CBin o b a) c.
-  Proof. destruct c as [ l | o' c1 c2 ]; cbn [cond_eqb]; [ reflexivity | ]. f_equal. apply orb_comm. Qed.
+  Proof.
+    destruct c as [ l | o' c1 c2 ]; cbn [cond_eqb]; [ reflexivity | ]. f_equal.
+    destruct (cond_eqb A aeq a c1), (cond_eqb A aeq b c2), (cond_eqb A aeq a c2), (cond_eqb A aeq b c1); reflexivity.
+  Qed.
   Theorem cond_eqb_commute_r o a b c : cond_eqb A aeq c (CBin o a b) = cond_eqb A aeq c (CBin o b a).
   Proof. destruct c as [ l | o' c1 c2 ]; cbn [cond_eqb]; [ reflexivity | ]. f_equal. apply orb_comm. Qed.
 
@@ -271,7 +272,7 @@ Section Generic.
     - apply String.eqb_eq. congruence.
     - eapply list_eqb_trans; [ | exact L1 | exact L2 ].
       intros u v w Hu Hv Hw. apply Ht; apply in_or_app; left; assumption.
-    - rewrite kw_eqb_geqb in *. eapply geqb_trans; [ | exact K1 | exact K2 ].
+    - rewrite kw_eqb_geqb in *. eapply (geqb_trans string String.eqb String.eqb_eq A aeq); [ | exact K1 | exact K2 ].
       intros u v w Hu Hv Hw. apply Ht; apply in_or_app; right; assumption.
   Qed.
 
@@ -309,6 +310,770 @@ Section Generic.
       + left. rewrite (T1 b2 c1), (T2 b1 c2); auto.
   Qed.
 End Generic.
+Arguments leaf_args {A}. Arguments cond_args {A}. Arguments leaf_wf {A}. Arguments cond_wf {A}.
+
+(* ------------------------------------------------------------------ *)
+(* 4. Python's == on values                                              *)
+
+Fixpoint dict_free (v : pyval) : bool :=
+  match v with
+  | VList l | VTuple l => forallb dict_free l
+  | VDict _ => false
+  | _ => true
+  end.
+
+Lemma py_eq_list_char : forall l r, py_eq (VList l) (VList r) = list_eqb py_eq l r.
+Proof.
+  induction l as [ | x l IH ]; intros [ | y r ]; try reflexivity.
+  cbn [list_eqb]. rewrite <- IH. reflexivity.
+Qed.
+Lemma py_eq_tuple_char : forall l r, py_eq (VTuple l) (VTuple r) = list_eqb py_eq l r.
+Proof.
+  induction l as [ | x l IH ]; intros [ | y r ]; try reflexivity.
+  cbn [list_eqb]. rewrite <- IH. reflexivity.
+Qed.
+
+Definition dict_entry_ok (d2 : list (pyval * pyval)) (kv : pyval * pyval) : bool :=
+  match dict_look (fst kv) d2 with Some v => py_eq (snd kv) v | None => false end.
+
+Lemma dict_look_char k v : forall d2,
+  (fix look (d2 : list (pyval * pyval)) := match d2 with [] => false
+     | (k2, v2) :: r2 => if py_eq k k2 then py_eq v v2 else look r2 end) d2
+  = match dict_look k d2 with Some v' => py_eq v v' | None => false end.
+Proof.
+  induction d2 as [ | [k2 v2] r2 IH2 ]; [ reflexivity | ].
+  cbn [dict_look]. destruct (py_eq k k2); [ reflexivity | exact IH2 ].
+Qed.
+
+Lemma py_eq_dict_char d1 d2 : py_eq (VDict d1) (VDict d2) =
+  Nat.eqb (List.length d1) (List.length d2) && forallb (dict_entry_ok d2) d1.
+Proof.
+  cbn [py_eq num_of]. f_equal.
+  induction d1 as [ | [k v] r IH ]; [ reflexivity | ].
+  cbn [forallb]. rewrite <- IH. f_equal.
+  unfold dict_entry_ok. cbn [fst snd]. apply dict_look_char.
+Qed.
+
+Lemma dict_look_some : forall d k v, dict_look k d = Some v -> exists k2, In (k2, v) d /\ py_eq k k2 = true.
+Proof.
+  induction d as [ | [k2 v2] r IH ]; intros k v H; cbn [dict_look] in H; [ discriminate | ].
+  destruct (py_eq k k2) eqn:E.
+  - inversion H; subst. exists k2. split; [ left; reflexivity | exact E ].
+  - destruct (IH _ _ H) as [k3 [Hin Hk]]. exists k3. split; [ right; exact Hin | exact Hk ].
+Qed.
+
+Lemma py_eq_dict_true_iff d1 d2 : py_eq (VDict d1) (VDict d2) = true <->
+  List.length d1 = List.length d2 /\
+  forall k v, In (k, v) d1 -> exists v', dict_look k d2 = Some v' /\ py_eq v v' = true.
+Proof.
+  rewrite py_eq_dict_char, andb_true_iff, Nat.eqb_eq, forallb_forall. unfold dict_entry_ok. split.
+  - intros [Hl Hf]. split; [ exact Hl | ]. intros k v Hin. specialize (Hf _ Hin). cbn [fst snd] in Hf.
+    destruct (dict_look k d2) as [v' | ]; [ exists v'; split; [ reflexivity | exact Hf ] | discriminate ].
+  - intros [Hl Hf]. split; [ exact Hl | ]. intros [k v] Hin. cbn [fst snd].
+    destruct (Hf _ _ Hin) as [v' [-> Hv]]. exact Hv.
+Qed.
+
+(* ---- dict-free values ---- *)
+
+Lemma num_eqb_sym a b : num_eqb a b = num_eqb b a.
+Proof. unfold num_eqb. rewrite (Z.eqb_sym (fst a)), (Z.eqb_sym (snd a)). reflexivity. Qed.
+
+Lemma num_eqb_trans a b c : num_eqb a b = true -> num_eqb b c = true -> num_eqb a c = true.
+Proof. rewrite !num_eqb_eq. congruence. Qed.
+
+Lemma pytype_eqb_sym a b : pytype_eqb a b = pytype_eqb b a.
+Proof. destruct a, b; reflexivity. Qed.
+
+Theorem py_eq_sym_df : forall a b, dict_free a = true -> py_eq a b = py_eq b a.
+Proof.
+  induction a as [ | b0 | z | n m e | s | l IHl | l IHl | d IHd | t | t ] using pyval_ind';
+    intros b Hdf; destruct b; try discriminate Hdf;
+    try reflexivity; try (cbn [py_eq num_of]; apply num_eqb_sym).
+  - cbn [py_eq num_of]. apply String.eqb_sym.
+  - rewrite !py_eq_list_char. cbn [dict_free] in Hdf. rewrite forallb_forall in Hdf. rewrite Forall_forall in IHl.
+    apply list_eqb_sym. intros x y Hx Hy. apply IHl; [ exact Hx | apply Hdf; exact Hx ].
+  - rewrite !py_eq_tuple_char. cbn [dict_free] in Hdf. rewrite forallb_forall in Hdf. rewrite Forall_forall in IHl.
+    apply list_eqb_sym. intros x y Hx Hy. apply IHl; [ exact Hx | apply Hdf; exact Hx ].
+  - cbn [py_eq num_of]. apply pytype_eqb_sym.
+  - cbn [py_eq num_of]. apply N.eqb_sym.
+Qed.
+
+(* only the middle value needs to be dict-free *)
+Theorem py_eq_trans_mid : forall a b c, dict_free b = true ->
+  py_eq a b = true -> py_eq b c = true -> py_eq a c = true.
+Proof.
+  induction a as [ | b0 | z | n m e | s | l IHl | l IHl | d IHd | t | t ] using pyval_ind';
+    intros b c Hdf Hab Hbc;
+    destruct b; try discriminate Hdf; try (cbn [py_eq num_of] in Hab; discriminate Hab);
+    destruct c; try (cbn [py_eq num_of] in Hbc; discriminate Hbc);
+    try reflexivity;
+    try (cbn [py_eq num_of] in *; eapply num_eqb_trans; eassumption).
+  - cbn [py_eq num_of] in *. apply String.eqb_eq in Hab, Hbc. apply String.eqb_eq. congruence.
+  - rewrite py_eq_list_char in *. cbn [dict_free] in Hdf. rewrite forallb_forall in Hdf. rewrite Forall_forall in IHl.
+    eapply list_eqb_trans; [ | exact Hab | exact Hbc ].
+    intros x y w Hx Hy Hw. apply IHl; [ exact Hx | apply Hdf; exact Hy ].
+  - rewrite py_eq_tuple_char in *. cbn [dict_free] in Hdf. rewrite forallb_forall in Hdf. rewrite Forall_forall in IHl.
+    eapply list_eqb_trans; [ | exact Hab | exact Hbc ].
+    intros x y w Hx Hy Hw. apply IHl; [ exact Hx | apply Hdf; exact Hy ].
+  - cbn [py_eq num_of] in *. apply pytype_eqb_eq in Hab, Hbc. apply pytype_eqb_eq. congruence.
+  - cbn [py_eq num_of] in *. apply N.eqb_eq in Hab, Hbc. apply N.eqb_eq. congruence.
+Qed.
+
+Theorem py_eq_trans_df a b c : dict_free a = true -> dict_free b = true -> dict_free c = true ->
+  py_eq a b = true -> py_eq b c = true -> py_eq a c = true.
+Proof. intros _ Hb _. apply py_eq_trans_mid. exact Hb. Qed.
+
+Lemma hashable_dict_free : forall v, py_hashable v = true -> dict_free v = true.
+Proof.
+  induction v as [ | b0 | z | n m e | s | l IHl | l IHl | d IHd | t | t ] using pyval_ind';
+    intros H; try discriminate H; try reflexivity.
+  cbn [py_hashable] in H. cbn [dict_free]. rewrite forallb_forall in *. rewrite Forall_forall in IHl.
+  intros x Hx. apply IHl; [ exact Hx | apply H; exact Hx ].
+Qed.
+
+Lemma dict_free_wf : forall v, dict_free v = true -> wf_val v = true.
+Proof.
+  induction v as [ | b0 | z | n m e | s | l IHl | l IHl | d IHd | t | t ] using pyval_ind';
+    intros H; try discriminate H; try reflexivity.
+  - cbn [wf_val]. cbn [dict_free] in H. rewrite forallb_forall in *. rewrite Forall_forall in IHl.
+    intros x Hx. apply IHl; [ exact Hx | apply H; exact Hx ].
+  - cbn [wf_val]. cbn [dict_free] in H. rewrite forallb_forall in *. rewrite Forall_forall in IHl.
+    intros x Hx. apply IHl; [ exact Hx | apply H; exact Hx ].
+Qed.
+
+Theorem py_eq_refl_wf : forall v, wf_val v = true -> py_eq v v = true.
+Proof.
+  induction v as [ | b0 | z | n m e | s | l IHl | l IHl | d IHd | t | t ] using pyval_ind';
+    intros Hwf; try reflexivity; try (cbn [py_eq num_of]; apply num_eqb_refl).
+  - cbn [py_eq num_of]. apply String.eqb_refl.
+  - rewrite py_eq_list_char. cbn [wf_val] in Hwf. rewrite forallb_forall in Hwf. rewrite Forall_forall in IHl.
+    apply list_eqb_refl. intros x Hx. apply IHl; [ exact Hx | apply Hwf; exact Hx ].
+  - rewrite py_eq_tuple_char. cbn [wf_val] in Hwf. rewrite forallb_forall in Hwf. rewrite Forall_forall in IHl.
+    apply list_eqb_refl. intros x Hx. apply IHl; [ exact Hx | apply Hwf; exact Hx ].
+  - destruct (wf_dict_split _ Hwf) as [Hent Hkd].
+    apply py_eq_dict_true_iff. split; [ reflexivity | ].
+    intros k v Hin. exists v.
+    destruct (wf_entries_in _ _ _ Hent Hin) as [_ [Hh Hv]].
+    split; [ apply dict_look_in; [ exact Hkd | apply py_eq_refl_hashable; exact Hh | exact Hin ] | ].
+    rewrite Forall_forall in IHd. apply (IHd _ Hin). exact Hv.
+  - cbn [py_eq num_of]. apply pytype_eqb_eq. reflexivity.
+  - cbn [py_eq num_of]. apply N.eqb_refl.
+Qed.
+
+(* ------------------------------------------------------------------ *)
+(* 5. instances, over an abstract domain D of literal values on which == is an equivalence *)
+
+Lemma datum_type_eqb_refl a : datum_type_eqb a a = true.
+Proof. destruct a; reflexivity. Qed.
+Lemma datum_type_eqb_sym a b : datum_type_eqb a b = datum_type_eqb b a.
+Proof. destruct a, b; reflexivity. Qed.
+Lemma datum_type_eqb_eq a b : datum_type_eqb a b = true -> a = b.
+Proof. destruct a, b; cbn; congruence. Qed.
+Lemma multi_type_eqb_refl a : multi_type_eqb a a = true.
+Proof. destruct a; reflexivity. Qed.
+Lemma multi_type_eqb_sym a b : multi_type_eqb a b = multi_type_eqb b a.
+Proof. destruct a, b; reflexivity. Qed.
+Lemma multi_type_eqb_eq a b : multi_type_eqb a b = true -> a = b.
+Proof. destruct a, b; cbn; congruence. Qed.
+Lemma bool_eqb_sym a b : Bool.eqb a b = Bool.eqb b a.
+Proof. destruct a, b; reflexivity. Qed.
+Lemma castfn_eqb_refl a : castfn_eqb a a = true.
+Proof. destruct a; reflexivity. Qed.
+Lemma castfn_eqb_sym a b : castfn_eqb a b = castfn_eqb b a.
+Proof. destruct a, b; reflexivity. Qed.
+Lemma castfn_eqb_trans a b c : castfn_eqb a b = true -> castfn_eqb b c = true -> castfn_eqb a c = true.
+Proof. destruct a, b, c; cbn; congruence. Qed.
+
+(* a label / source document that was not given compares like None *)
+Definition oval (o : option pyval) : pyval := match o with Some x => x | None => VNone end.
+Lemma olabel_eqb_py a b : olabel_eqb a b = py_eq (oval a) (oval b).
+Proof. destruct a, b; reflexivity. Qed.
+Lemma osrc_eqb_py a b : osrc_eqb a b = py_eq (oval a) (oval b).
+Proof. destruct a, b; reflexivity. Qed.
+
+(* casts: a dict from types to cast functions *)
+Definition casts_wf (l : list (pytype * castfn)) : Prop := NoDup (map fst l).
+Lemma casts_eqb_geqb a b : casts_eqb a b = geqb pytype pytype_eqb castfn castfn_eqb a b.
+Proof. reflexivity. Qed.
+
+Theorem casts_eqb_refl a : casts_wf a -> casts_eqb a a = true.
+Proof.
+  intros H. rewrite casts_eqb_geqb. apply geqb_refl; [ exact pytype_eqb_eq | exact H | ].
+  intros v _. apply castfn_eqb_refl.
+Qed.
+Theorem casts_eqb_sym a b : casts_wf a -> casts_wf b -> casts_eqb a b = casts_eqb b a.
+Proof.
+  intros Ha Hb. rewrite !casts_eqb_geqb. apply geqb_sym; [ exact pytype_eqb_eq | exact Ha | exact Hb | ].
+  intros x y _ _. apply castfn_eqb_sym.
+Qed.
+Theorem casts_eqb_trans a b c : casts_eqb a b = true -> casts_eqb b c = true -> casts_eqb a c = true.
+Proof.
+  rewrite !casts_eqb_geqb. apply geqb_trans; [ exact pytype_eqb_eq | ].
+  intros x y z _ _ _. apply castfn_eqb_trans.
+Qed.
+
+Section Inst.
+  Variable D : pyval -> bool.
+  Hypothesis D_refl : forall v, D v = true -> py_eq v v = true.
+  Hypothesis D_sym : forall a b, D a = true -> D b = true -> py_eq a b = py_eq b a.
+  Hypothesis D_trans : forall a b c, D a = true -> D b = true -> D c = true ->
+    py_eq a b = true -> py_eq b c = true -> py_eq a c = true.
+
+  (* ---- conditions with literal arguments ---- *)
+  Definition cond0_ok (c : cond pyval) : Prop :=
+    cond_wf c /\ forall v, In v (cond_args c) -> D v = true.
+
+  Theorem cond0_eqb_refl_D c : cond0_ok c -> cond0_eqb c c = true.
+  Proof. intros [Hwf Hd]. apply cond_eqb_refl; [ exact Hwf | ]. intros a Ha. apply D_refl, Hd, Ha. Qed.
+
+  Theorem cond0_eqb_sym_D a b : cond0_ok a -> cond0_ok b -> cond0_eqb a b = cond0_eqb b a.
+  Proof. intros [Hwa Hda] [Hwb Hdb]. apply cond_eqb_sym; try assumption. intros u v Hu Hv. apply D_sym; auto. Qed.
+
+  Theorem cond0_eqb_trans_D a b c : cond0_ok a -> cond0_ok b -> cond0_ok c ->
+    cond0_eqb a b = true -> cond0_eqb b c = true -> cond0_eqb a c = true.
+  Proof.
+    intros [_ Hda] [_ Hdb] [_ Hdc]. apply cond_eqb_trans. intros u v w Hu Hv Hw. apply D_trans; auto.
+  Qed.
+
+  Theorem cond0_eqb_commute_D o a b : cond0_ok a -> cond0_ok b -> cond0_eqb (CBin o a b) (CBin o b a) = true.
+  Proof. intros Ha Hb. apply cond_eqb_commute; apply cond0_eqb_refl_D; assumption. Qed.
+
+  (* ---- labels ---- *)
+  Definition olabel_ok (o : option pyval) : Prop := D (oval o) = true.
+
+  (* ---- parts ---- *)
+  Definition part_ok (p : part pyval) : Prop :=
+    match p with
+    | PMap c l | PList c l => cond0_ok c /\ olabel_ok l
+    | PMol c lc mc l => cond0_ok c /\ cond0_ok lc /\ cond0_ok mc /\ olabel_ok l
+    end.
+
+  Theorem part_eqb_refl_D p : part_ok p -> part_eqb p p = true.
+  Proof.
+    destruct p as [ c l | c l | c lc mc l ]; cbn [part_ok part_eqb].
+    - intros [Hc Hl]. rewrite cond0_eqb_refl_D, olabel_eqb_py, D_refl; auto.
+    - intros [Hc Hl]. rewrite cond0_eqb_refl_D, olabel_eqb_py, D_refl; auto.
+    - intros [Hc [Hlc [Hmc Hl]]]. rewrite !cond0_eqb_refl_D, olabel_eqb_py, D_refl; auto.
+  Qed.
+
+  Theorem part_eqb_sym_D p q : part_ok p -> part_ok q -> part_eqb p q = part_eqb q p.
+  Proof.
+    destruct p as [ c l | c l | c lc mc l ]; destruct q as [ c' l' | c' l' | c' lc' mc' l' ];
+      cbn [part_ok part_eqb]; try reflexivity.
+    - intros [Hc Hl] [Hc' Hl']. rewrite (cond0_eqb_sym_D c c'), !olabel_eqb_py, (D_sym (oval l)); auto.
+    - intros [Hc Hl] [Hc' Hl']. rewrite (cond0_eqb_sym_D c c'), !olabel_eqb_py, (D_sym (oval l)); auto.
+    - intros [Hc [Hlc [Hmc Hl]]] [Hc' [Hlc' [Hmc' Hl']]].
+      rewrite (cond0_eqb_sym_D c c'), (cond0_eqb_sym_D lc lc'), (cond0_eqb_sym_D mc mc'),
+        !olabel_eqb_py, (D_sym (oval l)); auto.
+  Qed.
+
+  Theorem part_eqb_trans_D p q r : part_ok p -> part_ok q -> part_ok r ->
+    part_eqb p q = true -> part_eqb q r = true -> part_eqb p r = true.
+  Proof.
+    destruct p as [ c l | c l | c lc mc l ]; destruct q as [ c' l' | c' l' | c' lc' mc' l' ];
+      destruct r as [ c'' l'' | c'' l'' | c'' lc'' mc'' l'' ];
+      cbn [part_ok part_eqb]; try discriminate; rewrite ?olabel_eqb_py, ?andb_true_iff.
+    - intros [Hc Hl] [Hc' Hl'] [Hc'' Hl''] [E1 E2] [F1 F2]. split.
+      + eapply cond0_eqb_trans_D; [ | | | exact E1 | exact F1 ]; assumption.
+      + eapply D_trans; [ | | | exact E2 | exact F2 ]; assumption.
+    - intros [Hc Hl] [Hc' Hl'] [Hc'' Hl''] [E1 E2] [F1 F2]. split.
+      + eapply cond0_eqb_trans_D; [ | | | exact E1 | exact F1 ]; assumption.
+      + eapply D_trans; [ | | | exact E2 | exact F2 ]; assumption.
+    - intros [Hc [Hlc [Hmc Hl]]] [Hc' [Hlc' [Hmc' Hl']]] [Hc'' [Hlc'' [Hmc'' Hl'']]]
+        [[[E1 E2] E3] E4] [[[F1 F2] F3] F4]. repeat split.
+      + eapply cond0_eqb_trans_D; [ | | | exact E1 | exact F1 ]; assumption.
+      + eapply D_trans; [ | | | exact E2 | exact F2 ]; assumption.
+      + eapply cond0_eqb_trans_D; [ | | | exact E3 | exact F3 ]; assumption.
+      + eapply cond0_eqb_trans_D; [ | | | exact E4 | exact F4 ]; assumption.
+  Qed.
+
+  (* ---- paths ---- *)
+  Definition path_ok (p : dpath pyval) : Prop :=
+    (forall x, In x (p_parts p) -> part_ok x) /\ olabel_ok (p_src p).
+
+  Theorem path_eqb_refl_D p : path_ok p -> path_eqb p p = true.
+  Proof.
+    intros [Hp Hs]. unfold path_eqb.
+    rewrite list_eqb_refl by (intros x Hx; apply part_eqb_refl_D, Hp, Hx).
+    rewrite Bool.eqb_reflx, datum_type_eqb_refl, multi_type_eqb_refl, osrc_eqb_py, D_refl; auto.
+  Qed.
+
+  Theorem path_eqb_sym_D p q : path_ok p -> path_ok q -> path_eqb p q = path_eqb q p.
+  Proof.
+    intros [Hp Hs] [Hq Ht]. unfold path_eqb.
+    rewrite (list_eqb_sym part_eqb (p_parts p) (p_parts q))
+      by (intros x y Hx Hy; apply part_eqb_sym_D; auto).
+    rewrite (bool_eqb_sym (p_concrete p)), (datum_type_eqb_sym (p_dt p)), (multi_type_eqb_sym (p_mt p)),
+      !osrc_eqb_py, (D_sym (oval (p_src p))); auto.
+  Qed.
+
+  Theorem path_eqb_trans_D p q r : path_ok p -> path_ok q -> path_ok r ->
+    path_eqb p q = true -> path_eqb q r = true -> path_eqb p r = true.
+  Proof.
+    intros [Hp Hs] [Hq Ht] [Hr Hu]. unfold path_eqb. rewrite !osrc_eqb_py, !andb_true_iff.
+    intros [[[[E1 E2] E3] E4] E5] [[[[F1 F2] F3] F4] F5].
+    apply Bool.eqb_prop in E2, F2. apply datum_type_eqb_eq in E3, F3. apply multi_type_eqb_eq in E4, F4.
+    repeat split.
+    - eapply list_eqb_trans; [ | exact E1 | exact F1 ].
+      intros x y z Hx Hy Hz. apply part_eqb_trans_D; auto.
+    - rewrite E2, F2. apply Bool.eqb_reflx.
+    - rewrite E3, F3. apply datum_type_eqb_refl.
+    - rewrite E4, F4. apply multi_type_eqb_refl.
+    - eapply D_trans; [ | | | exact E5 | exact F5 ]; assumption.
+  Qed.
+
+  (* ---- rule conditions: arguments are literals or data paths ---- *)
+  Variable T : tables.
+
+  (* a data-path argument is compared through the path object it builds *)
+  Definition arg1_ok (a : arg1) : Prop :=
+    match a with
+    | ALit v => D v = true
+    | APath _ p => forall x, mk_path T (fun v : pyval => v) p = Ok x -> path_ok x
+    end.
+  Definition arg1_buildable (a : arg1) : Prop :=
+    match a with
+    | ALit _ => True
+    | APath _ p => exists x, mk_path T (fun v : pyval => v) p = Ok x
+    end.
+
+  Theorem arg1_eqb_refl_D a : arg1_ok a -> arg1_buildable a -> arg1_eqb T a a = true.
+  Proof.
+    destruct a as [ v | tag p ]; cbn [arg1_ok arg1_buildable arg1_eqb].
+    - intros Hd _. apply D_refl, Hd.
+    - intros Hok [x Hx]. rewrite Hx. apply path_eqb_refl_D, Hok, Hx.
+  Qed.
+
+  Theorem arg1_eqb_sym_D a b : arg1_ok a -> arg1_ok b -> arg1_eqb T a b = arg1_eqb T b a.
+  Proof.
+    destruct a as [ v | tag p ]; destruct b as [ w | tag' q ]; cbn [arg1_ok arg1_eqb]; try reflexivity.
+    - intros Hv Hw. apply D_sym; assumption.
+    - intros Hp Hq.
+      destruct (mk_path T (fun v : pyval => v) p) as [ x | e ]; destruct (mk_path T (fun v : pyval => v) q) as [ y | e' ];
+        try reflexivity.
+      apply path_eqb_sym_D; auto.
+  Qed.
+
+  Theorem arg1_eqb_trans_D a b c : arg1_ok a -> arg1_ok b -> arg1_ok c ->
+    arg1_eqb T a b = true -> arg1_eqb T b c = true -> arg1_eqb T a c = true.
+  Proof.
+    destruct a as [ v | tag p ]; destruct b as [ w | tag' q ]; destruct c as [ u | tag'' r ];
+      cbn [arg1_ok arg1_eqb]; try discriminate.
+    - intros Hv Hw Hu. apply D_trans; assumption.
+    - intros Hp Hq Hr.
+      destruct (mk_path T (fun v : pyval => v) p) as [ x | e ]; [ | discriminate ].
+      destruct (mk_path T (fun v : pyval => v) q) as [ y | e' ]; [ | discriminate ].
+      destruct (mk_path T (fun v : pyval => v) r) as [ z | e'' ]; [ | discriminate ].
+      apply path_eqb_trans_D; auto.
+  Qed.
+
+  Definition cond1_ok (c : cond arg1) : Prop :=
+    cond_wf c /\ forall a, In a (cond_args c) -> arg1_ok a.
+  (* every data-path argument of the condition is a path object that could be built *)
+  Definition path_args_buildable (c : cond arg1) : Prop :=
+    forall a, In a (cond_args c) -> arg1_buildable a.
+
+  Theorem cond1_eqb_refl_D c : cond1_ok c -> path_args_buildable c -> cond1_eqb T c c = true.
+  Proof.
+    intros [Hwf Hd] Hb. apply cond_eqb_refl; [ exact Hwf | ]. intros a Ha. apply arg1_eqb_refl_D; auto.
+  Qed.
+
+  Theorem cond1_eqb_sym_D a b : cond1_ok a -> cond1_ok b -> cond1_eqb T a b = cond1_eqb T b a.
+  Proof.
+    intros [Hwa Hda] [Hwb Hdb]. apply cond_eqb_sym; try assumption. intros u v Hu Hv. apply arg1_eqb_sym_D; auto.
+  Qed.
+
+  Theorem cond1_eqb_trans_D a b c : cond1_ok a -> cond1_ok b -> cond1_ok c ->
+    cond1_eqb T a b = true -> cond1_eqb T b c = true -> cond1_eqb T a c = true.
+  Proof.
+    intros [_ Hda] [_ Hdb] [_ Hdc]. apply cond_eqb_trans. intros u v w Hu Hv Hw. apply arg1_eqb_trans_D; auto.
+  Qed.
+
+  Theorem cond1_eqb_commute_D o a b : cond1_ok a -> cond1_ok b -> path_args_buildable a -> path_args_buildable b ->
+    cond1_eqb T (CBin o a b) (CBin o b a) = true.
+  Proof. intros Ha Hb Ba Bb. apply cond_eqb_commute; apply cond1_eqb_refl_D; assumption. Qed.
+
+  (* ---- rules ---- *)
+  Definition rule_ok (r : rule) : Prop :=
+    path_ok (r_path r) /\ cond1_ok (r_cond r) /\ casts_wf (r_cast r).
+
+  Theorem rule_eqb_refl_D r g : rule_ok r -> path_args_buildable (r_cond r) -> rule_eqb T r r g g = true.
+  Proof.
+    intros [Hp [Hc Hk]] Hb. unfold rule_eqb.
+    rewrite path_eqb_refl_D, cond1_eqb_refl_D, casts_eqb_refl, Bool.eqb_reflx; auto.
+  Qed.
+
+  Theorem rule_eqb_sym_D a b ga gb : rule_ok a -> rule_ok b -> rule_eqb T a b ga gb = rule_eqb T b a gb ga.
+  Proof.
+    intros [Hp [Hc Hk]] [Hp' [Hc' Hk']]. unfold rule_eqb.
+    rewrite (path_eqb_sym_D (r_path a)), (cond1_eqb_sym_D (r_cond a)), (casts_eqb_sym (r_cast a)), (bool_eqb_sym ga); auto.
+  Qed.
+
+  Theorem rule_eqb_trans_D a b c ga gb gc : rule_ok a -> rule_ok b -> rule_ok c ->
+    rule_eqb T a b ga gb = true -> rule_eqb T b c gb gc = true -> rule_eqb T a c ga gc = true.
+  Proof.
+    intros [Hp [Hc Hk]] [Hp' [Hc' Hk']] [Hp'' [Hc'' Hk'']]. unfold rule_eqb. rewrite !andb_true_iff.
+    intros [[[E1 E2] E3] E4] [[[F1 F2] F3] F4]. apply Bool.eqb_prop in E4, F4. repeat split.
+    - eapply path_eqb_trans_D; [ | | | exact E1 | exact F1 ]; assumption.
+    - eapply cond1_eqb_trans_D; [ | | | exact E2 | exact F2 ]; assumption.
+    - eapply casts_eqb_trans; eassumption.
+    - rewrite E4, F4. apply Bool.eqb_reflx.
+  Qed.
+
+  (* ---- rebuilt copies ---- *)
+  Theorem C14_rebuild_D t c c' : build1 T t = Ok c -> build1 T t = Ok c' ->
+    cond1_ok c -> path_args_buildable c -> cond1_eqb T c c' = true.
+  Proof. intros H1 H2 Hok Hb. rewrite H1 in H2. inversion H2; subst c'. apply cond1_eqb_refl_D; assumption. Qed.
+End Inst.
+
+(* ------------------------------------------------------------------ *)
+(* 6. == is symmetric and transitive on all well-formed values (dicts included) *)
+
+Lemma list_eqb_sym_imp {X} (f : X -> X -> bool) : forall a b,
+  (forall x y, In x a -> In y b -> f x y = true -> f y x = true) ->
+  list_eqb f a b = true -> list_eqb f b a = true.
+Proof.
+  induction a as [ | x a IH ]; intros [ | y b ] H Hab; cbn in *; try discriminate; try reflexivity.
+  apply andb_true_iff in Hab. destruct Hab as [Hxy Hab]. apply andb_true_iff. split.
+  - apply H; auto.
+  - apply IH; [ | exact Hab ]. intros u v Hu Hv. apply H; right; assumption.
+Qed.
+
+(* an injective total relation between lists of equal length is onto *)
+Lemma pigeon_rel {X Y} (R : X -> Y -> Prop) : forall (l1 : list X) (l2 : list Y),
+  NoDup l1 -> List.length l1 = List.length l2 ->
+  (forall x, In x l1 -> exists y, In y l2 /\ R x y) ->
+  (forall x x' y, In x l1 -> In x' l1 -> In y l2 -> R x y -> R x' y -> x = x') ->
+  forall y, In y l2 -> exists x, In x l1 /\ R x y.
+Proof.
+  induction l1 as [ | x l1 IH ]; intros l2 Hnd Hlen Htot Hinj y Hy.
+  - destruct l2; [ contradiction | discriminate ].
+  - inversion Hnd as [ | ? ? Hnotin Hnd' ]; subst.
+    destruct (Htot x (or_introl eq_refl)) as [y0 [Hy0 Rxy0]].
+    destruct (in_split _ _ Hy0) as [la [lb Hl2]]. subst l2.
+    assert (Hlen' : List.length l1 = List.length (la ++ lb)).
+    { rewrite app_length in *. cbn in Hlen. lia. }
+    assert (Hsub : forall z, In z (la ++ lb) -> In z (la ++ y0 :: lb)).
+    { intros z Hz. apply in_app_or in Hz. apply in_or_app. destruct Hz; [ left | right; right ]; assumption. }
+    assert (IH' := IH (la ++ lb) Hnd' Hlen').
+    assert (Htot' : forall x', In x' l1 -> exists y', In y' (la ++ lb) /\ R x' y').
+    { intros x' Hx'. destruct (Htot x' (or_intror Hx')) as [y' [Hy' Rx'y']].
+      exists y'. split; [ | exact Rx'y' ].
+      apply in_app_or in Hy'. apply in_or_app. destruct Hy' as [ Hy' | [ Heq | Hy' ] ]; [ left; exact Hy' | | right; exact Hy' ].
+      subst y'. exfalso. apply Hnotin.
+      rewrite (Hinj x x' y0); [ exact Hx' | left; reflexivity | right; exact Hx' | exact Hy0 | exact Rxy0 | exact Rx'y' ]. }
+    assert (Hinj' : forall x1 x2 y', In x1 l1 -> In x2 l1 -> In y' (la ++ lb) -> R x1 y' -> R x2 y' -> x1 = x2).
+    { intros x1 x2 y' H1 H2 H3. apply Hinj; [ right; exact H1 | right; exact H2 | apply Hsub; exact H3 ]. }
+    apply in_app_or in Hy. destruct Hy as [ Hy | [ Heq | Hy ] ].
+    + destruct (IH' Htot' Hinj' y) as [x' [Hx' Rx']]; [ apply in_or_app; left; exact Hy | ].
+      exists x'. split; [ right; exact Hx' | exact Rx' ].
+    + subst y. exists x. split; [ left; reflexivity | exact Rxy0 ].
+    + destruct (IH' Htot' Hinj' y) as [x' [Hx' Rx']]; [ apply in_or_app; right; exact Hy | ].
+      exists x'. split; [ right; exact Hx' | exact Rx' ].
+Qed.
+
+(* two entries of a dict whose keys are == are the same entry *)
+Lemma keys_distinct_same : forall d : list (pyval * pyval), keys_distinct (map fst d) = true ->
+  forall e e', In e d -> In e' d -> py_eq (fst e) (fst e') = true -> e = e'.
+Proof.
+  induction d as [ | e0 r IH ]; intros Hkd e e' He He' Heq; [ contradiction | ].
+  cbn [map keys_distinct] in Hkd. rewrite !andb_true_iff, !negb_true_iff in Hkd. destruct Hkd as [[H1 H2] Hr].
+  destruct He as [ He | He ]; destruct He' as [ He' | He' ].
+  - congruence.
+  - subst e. exfalso. assert (Hex : existsb (py_eq (fst e0)) (map fst r) = true).
+    { apply existsb_exists. exists (fst e'). split; [ apply in_map; exact He' | exact Heq ]. }
+    congruence.
+  - subst e'. exfalso. assert (Hex : existsb (fun k2 => py_eq k2 (fst e0)) (map fst r) = true).
+    { apply existsb_exists. exists (fst e). split; [ apply in_map; exact He | exact Heq ]. }
+    congruence.
+  - apply IH; assumption.
+Qed.
+
+(* looking up a key that is == to exactly the key k1 (up to ==) finds k1's entry *)
+Lemma dict_look_unique : forall (d : list (pyval * pyval)) k k1 v1, keys_distinct (map fst d) = true ->
+  In (k1, v1) d -> py_eq k k1 = true ->
+  (forall k', In k' (map fst d) -> py_eq k k' = true -> py_eq k' k1 = true) ->
+  dict_look k d = Some v1.
+Proof.
+  induction d as [ | [k0 v0] r IH ]; intros k k1 v1 Hkd Hin Hk Hall; [ contradiction | ].
+  cbn [map fst keys_distinct] in Hkd. rewrite !andb_true_iff, !negb_true_iff in Hkd. destruct Hkd as [[H1 H2] Hr].
+  cbn [dict_look]. destruct (py_eq k k0) eqn:E.
+  - destruct Hin as [ Heq | Hin ]; [ inversion Heq; reflexivity | ].
+    exfalso. assert (Hex : existsb (py_eq k0) (map fst r) = true).
+    { apply existsb_exists. exists k1. split.
+      - apply in_map_iff. exists (k1, v1). split; [ reflexivity | exact Hin ].
+      - apply Hall; [ left; reflexivity | exact E ]. }
+    congruence.
+  - destruct Hin as [ Heq | Hin ]; [ inversion Heq; subst; congruence | ].
+    apply (IH k k1 v1); try assumption. intros k' Hk'. apply Hall. right. exact Hk'.
+Qed.
+
+Lemma wf_dict_keys_NoDup d : wf_val (VDict d) = true -> NoDup d.
+Proof.
+  intros Hwf. destruct (wf_dict_split _ Hwf) as [Hent Hkd].
+  apply (NoDup_map_inv fst). apply keys_distinct_NoDup; [ exact Hkd | ].
+  intros k Hk. apply in_map_iff in Hk. destruct Hk as [[k' v] [Hk Hin]]. cbn in Hk. subst k'.
+  apply py_eq_refl_hashable. eapply wf_entries_in; eauto.
+Qed.
+
+Lemma wf_key_df d k v : wf_val (VDict d) = true -> In (k, v) d -> dict_free k = true.
+Proof.
+  intros Hwf Hin. destruct (wf_dict_split _ Hwf) as [Hent _].
+  apply hashable_dict_free. eapply wf_entries_in; eauto.
+Qed.
+
+Lemma wf_val_in d k v : wf_val (VDict d) = true -> In (k, v) d -> wf_val v = true.
+Proof. intros Hwf Hin. destruct (wf_dict_split _ Hwf) as [Hent _]. eapply wf_entries_in; eauto. Qed.
+
+Lemma py_eq_sym_wf_imp : forall a b, wf_val a = true -> wf_val b = true ->
+  py_eq a b = true -> py_eq b a = true.
+Proof.
+  induction a as [ | b0 | z | n m e | s | l IHl | l IHl | d1 IHd | t | t ] using pyval_ind';
+    intros b Hwa Hwb Hab;
+    try (rewrite <- py_eq_sym_df by reflexivity; exact Hab).
+  - destruct b as [ | | | | | r | | | | ]; try (cbn [py_eq num_of] in Hab; discriminate Hab).
+    rewrite py_eq_list_char in *. cbn [wf_val] in Hwa, Hwb. rewrite forallb_forall in Hwa, Hwb.
+    rewrite Forall_forall in IHl. revert Hab. apply list_eqb_sym_imp.
+    intros x y Hx Hy. apply IHl; auto.
+  - destruct b as [ | | | | | | r | | | ]; try (cbn [py_eq num_of] in Hab; discriminate Hab).
+    rewrite py_eq_tuple_char in *. cbn [wf_val] in Hwa, Hwb. rewrite forallb_forall in Hwa, Hwb.
+    rewrite Forall_forall in IHl. revert Hab. apply list_eqb_sym_imp.
+    intros x y Hx Hy. apply IHl; auto.
+  - destruct b as [ | | | | | | | d2 | | ]; try (cbn [py_eq num_of] in Hab; discriminate Hab).
+    rewrite Forall_forall in IHd.
+    apply py_eq_dict_true_iff in Hab. destruct Hab as [Hlen Hf].
+    destruct (wf_dict_split _ Hwa) as [Hent1 Hkd1]. destruct (wf_dict_split _ Hwb) as [Hent2 Hkd2].
+    (* every key of d2 is == to a key of d1 *)
+    assert (Honto : forall e2, In e2 d2 -> exists e1, In e1 d1 /\ py_eq (fst e1) (fst e2) = true).
+    { apply pigeon_rel; [ apply wf_dict_keys_NoDup; exact Hwa | exact Hlen | | ].
+      - intros [k1 v1] Hin1. destruct (Hf _ _ Hin1) as [v' [Hlook _]].
+        destruct (dict_look_some _ _ _ Hlook) as [k2 [Hin2 Hk]]. exists (k2, v'). split; assumption.
+      - intros [k1 v1] [k1' v1'] [k2 v2] Hin1 Hin1' Hin2 Hk Hk'. cbn [fst] in Hk, Hk'.
+        apply (keys_distinct_same _ Hkd1); try assumption. cbn [fst].
+        apply (py_eq_trans_mid k1 k2 k1'); [ exact (wf_key_df d2 k2 v2 Hwb Hin2) | exact Hk | ].
+        rewrite <- (py_eq_sym_df k1' k2) by exact (wf_key_df d1 k1' v1' Hwa Hin1'). exact Hk'. }
+    apply py_eq_dict_true_iff. split; [ symmetry; exact Hlen | ].
+    intros k2 v2 Hin2. destruct (Honto _ Hin2) as [[k1 v1] [Hin1 Hk]]. cbn [fst] in Hk.
+    assert (Hdf1 : dict_free k1 = true) by exact (wf_key_df d1 k1 v1 Hwa Hin1).
+    assert (Hdf2 : dict_free k2 = true) by exact (wf_key_df d2 k2 v2 Hwb Hin2).
+    exists v1. split.
+    + apply (dict_look_unique d1 k2 k1 v1); [ exact Hkd1 | exact Hin1 | rewrite (py_eq_sym_df k2 k1 Hdf2); exact Hk | ].
+      intros k' Hk' Hk2k'. apply (py_eq_trans_mid k' k2 k1 Hdf2); [ | rewrite (py_eq_sym_df k2 k1 Hdf2); exact Hk ].
+      rewrite <- (py_eq_sym_df k2 k' Hdf2). exact Hk2k'.
+    + destruct (Hf _ _ Hin1) as [v' [Hlook Hv]].
+      destruct (dict_look_some _ _ _ Hlook) as [k2' [Hin2' Hk1k2']].
+      assert (Hsame : (k2', v') = (k2, v2)).
+      { apply (keys_distinct_same _ Hkd2); try assumption. cbn [fst].
+        apply (py_eq_trans_mid k2' k1 k2 Hdf1); [ | exact Hk ].
+        rewrite <- (py_eq_sym_df k1 k2' Hdf1). exact Hk1k2'. }
+      inversion Hsame; subst k2' v'.
+      apply (IHd _ Hin1); [ exact (wf_val_in d1 k1 v1 Hwa Hin1) | exact (wf_val_in d2 k2 v2 Hwb Hin2) | exact Hv ].
+Qed.
+
+Theorem py_eq_sym_wf a b : wf_val a = true -> wf_val b = true -> py_eq a b = py_eq b a.
+Proof. intros Ha Hb. apply bool_eq_of_imp; apply py_eq_sym_wf_imp; assumption. Qed.
+
+Theorem py_eq_trans_wf : forall a b c, wf_val a = true -> wf_val b = true -> wf_val c = true ->
+  py_eq a b = true -> py_eq b c = true -> py_eq a c = true.
+Proof.
+  induction a as [ | b0 | z | n m e | s | l IHl | l IHl | d1 IHd | t | t ] using pyval_ind';
+    intros b c Hwa Hwb Hwc Hab Hbc.
+  1-5, 9-10: (apply (py_eq_trans_mid _ b c); [ | exact Hab | exact Hbc ];
+              destruct b; try reflexivity; cbn [py_eq num_of] in Hab; discriminate Hab).
+  - destruct b as [ | | | | | lb | | | | ]; try (cbn [py_eq num_of] in Hab; discriminate Hab).
+    destruct c as [ | | | | | lc | | | | ]; try (cbn [py_eq num_of] in Hbc; discriminate Hbc).
+    rewrite py_eq_list_char in *. cbn [wf_val] in Hwa, Hwb, Hwc. rewrite forallb_forall in Hwa, Hwb, Hwc.
+    rewrite Forall_forall in IHl. eapply list_eqb_trans; [ | exact Hab | exact Hbc ].
+    intros x y w Hx Hy Hw. apply IHl; auto.
+  - destruct b as [ | | | | | | lb | | | ]; try (cbn [py_eq num_of] in Hab; discriminate Hab).
+    destruct c as [ | | | | | | lc | | | ]; try (cbn [py_eq num_of] in Hbc; discriminate Hbc).
+    rewrite py_eq_tuple_char in *. cbn [wf_val] in Hwa, Hwb, Hwc. rewrite forallb_forall in Hwa, Hwb, Hwc.
+    rewrite Forall_forall in IHl. eapply list_eqb_trans; [ | exact Hab | exact Hbc ].
+    intros x y w Hx Hy Hw. apply IHl; auto.
+  - destruct b as [ | | | | | | | d2 | | ]; try (cbn [py_eq num_of] in Hab; discriminate Hab).
+    destruct c as [ | | | | | | | d3 | | ]; try (cbn [py_eq num_of] in Hbc; discriminate Hbc).
+    rewrite Forall_forall in IHd.
+    apply py_eq_dict_true_iff in Hab. destruct Hab as [Hlen1 Hf1].
+    apply py_eq_dict_true_iff in Hbc. destruct Hbc as [Hlen2 Hf2].
+    destruct (wf_dict_split _ Hwc) as [Hent3 Hkd3].
+    apply py_eq_dict_true_iff. split; [ congruence | ].
+    intros k1 v1 Hin1.
+    destruct (Hf1 _ _ Hin1) as [v2 [Hlook2 Hv12]].
+    destruct (dict_look_some _ _ _ Hlook2) as [k2 [Hin2 Hk12]].
+    destruct (Hf2 _ _ Hin2) as [v3 [Hlook3 Hv23]].
+    destruct (dict_look_some _ _ _ Hlook3) as [k3 [Hin3 Hk23]].
+    assert (Hdf1 : dict_free k1 = true) by exact (wf_key_df d1 k1 v1 Hwa Hin1).
+    assert (Hdf2 : dict_free k2 = true) by exact (wf_key_df d2 k2 v2 Hwb Hin2).
+    assert (Hk13 : py_eq k1 k3 = true) by (apply (py_eq_trans_mid k1 k2 k3 Hdf2); assumption).
+    exists v3. split.
+    + apply (dict_look_unique d3 k1 k3 v3); [ exact Hkd3 | exact Hin3 | exact Hk13 | ].
+      intros k' Hk' Hk1k'. apply (py_eq_trans_mid k' k1 k3 Hdf1); [ | exact Hk13 ].
+      rewrite <- (py_eq_sym_df k1 k' Hdf1). exact Hk1k'.
+    + apply (proj2 (IHd _ Hin1) v2 v3); [ exact (wf_val_in d1 k1 v1 Hwa Hin1) | exact (wf_val_in d2 k2 v2 Hwb Hin2) | exact (wf_val_in d3 k3 v3 Hwc Hin3) | exact Hv12 | exact Hv23 ].
+Qed.
+
+(* ------------------------------------------------------------------ *)
+(* 7. the arguments stored by a DSL constructor are the caller's arguments or literal defaults;
+      hence a condition that build1 accepts has only buildable data-path arguments *)
+
+Section CtorArgs.
+  Variable A : Type.
+  Variable lit : pyval -> A.
+  Variable P : A -> Prop.
+  Hypothesis P_lit : forall d, P (lit d).
+
+  Lemma cbind_pos_P : forall params pos e rest extra, Forall P pos ->
+    cbind_pos A params pos = (e, rest, extra) -> Forall P (map snd e) /\ Forall P extra.
+  Proof.
+    induction params as [ | [p d] ps IH ]; intros pos e rest extra Hpos H; cbn [cbind_pos] in H.
+    - inversion H; subst. split; [ constructor | exact Hpos ].
+    - destruct pos as [ | v vs ].
+      + inversion H; subst. split; constructor.
+      + destruct (cbind_pos A ps vs) as [[e' rest'] extra'] eqn:E. inversion H; subst.
+        inversion Hpos as [ | ? ? Hv Hvs ]; subst.
+        destruct (IH _ _ _ _ Hvs E) as [He Hx]. split; [ constructor; assumption | exact Hx ].
+  Qed.
+
+  Lemma cbind_kw_P : forall params kw missing hk e extra e' m' x',
+    Forall P (map snd kw) -> Forall P (map snd e) -> Forall P (map snd extra) ->
+    cbind_kw A params missing hk kw e extra = Ok (e', m', x') ->
+    Forall P (map snd e') /\ Forall P (map snd x').
+  Proof.
+    induction kw as [ | [k v] r IH ]; intros missing hk e extra e' m' x' Hkw He Hx H; cbn [cbind_kw] in H.
+    - inversion H; subst. split; assumption.
+    - cbn [map snd] in Hkw. inversion Hkw as [ | ? ? Hv Hr ]; subst.
+      destruct (existsb (fun m => String.eqb k (fst m)) missing).
+      + eapply IH; [ exact Hr | | exact Hx | exact H ]. cbn [map snd]. constructor; assumption.
+      + destruct (existsb (String.eqb k) params); [ discriminate | ].
+        destruct hk; [ | discriminate ].
+        eapply IH; [ exact Hr | exact He | | exact H ].
+        rewrite map_app. apply Forall_app. split; [ exact Hx | cbn; constructor; [ exact Hv | constructor ] ].
+  Qed.
+
+  Lemma fill_defaults_P : forall missing e e', Forall P (map snd e) ->
+    fill_defaults A lit missing e = Ok e' -> Forall P (map snd e').
+  Proof.
+    induction missing as [ | [p [d | ]] r IH ]; intros e e' He H; cbn [fill_defaults] in H.
+    - inversion H; subst. exact He.
+    - eapply IH; [ | exact H ]. cbn [map snd]. constructor; [ apply P_lit | exact He ].
+    - discriminate.
+  Qed.
+
+  Lemma aget_P : forall e p v, Forall P (map snd e) -> aget A p e = Some v -> P v.
+  Proof.
+    induction e as [ | [y w] r IH ]; intros p v He H; cbn [aget] in H; [ discriminate | ].
+    cbn [map snd] in He. inversion He as [ | ? ? Hw Hr ]; subst.
+    destruct (String.eqb p y); [ inversion H; subst; exact Hw | eapply IH; eauto ].
+  Qed.
+
+  Definition store_go (e2 : list (string * A)) (extra_pos : list A) (extra_kw : list (string * A)) :=
+    fix go (st : list store) (args : list A) (kws : list (string * A)) : res (list A * list (string * A)) :=
+      match st with
+      | [] => Ok (args, kws)
+      | StPos p :: r => match aget A p e2 with Some v => go r (args ++ [v]) kws | None => Err OtherExc end
+      | StKw k p :: r => match aget A p e2 with Some v => go r args (kws ++ [(k, v)]) | None => Err OtherExc end
+      | StStar _ :: r => go r (args ++ extra_pos) kws
+      | StDStar _ :: r => go r args (kws ++ extra_kw)
+      end.
+
+  Lemma store_go_P e2 xp xk : Forall P (map snd e2) -> Forall P xp -> Forall P (map snd xk) ->
+    forall st args kws args' kws', Forall P args -> Forall P (map snd kws) ->
+    store_go e2 xp xk st args kws = Ok (args', kws') -> Forall P args' /\ Forall P (map snd kws').
+  Proof.
+    intros He Hxp Hxk. induction st as [ | s r IH ]; intros args kws args' kws' Ha Hk H; cbn [store_go] in H.
+    - inversion H; subst. split; assumption.
+    - destruct s as [ p | k p | p | p ].
+      + destruct (aget A p e2) as [ v | ] eqn:E; [ | discriminate ].
+        eapply IH; [ | exact Hk | exact H ]. apply Forall_app. split; [ exact Ha | ].
+        constructor; [ exact (aget_P e2 p v He E) | constructor ].
+      + destruct (aget A p e2) as [ v | ] eqn:E; [ | discriminate ].
+        eapply IH; [ exact Ha | | exact H ]. rewrite map_app. apply Forall_app. split; [ exact Hk | ].
+        cbn. constructor; [ exact (aget_P e2 p v He E) | constructor ].
+      + eapply IH; [ | exact Hk | exact H ]. apply Forall_app. split; assumption.
+      + eapply IH; [ exact Ha | | exact H ]. rewrite map_app. apply Forall_app. split; assumption.
+  Qed.
+
+  Lemma apply_ctor_P c pos kw args kws : Forall P pos -> Forall P (map snd kw) ->
+    apply_ctor lit c pos kw = Ok (args, kws) -> Forall P args /\ Forall P (map snd kws).
+  Proof.
+    intros Hpos Hkw H. unfold apply_ctor in H.
+    destruct (cbind_pos A (c_params c) pos) as [[e0 missing] extra_pos] eqn:E0.
+    destruct (cbind_pos_P _ _ _ _ _ Hpos E0) as [He0 Hxp].
+    match type of H with bind ?r _ = _ => destruct r as [ [] | ]; [ | discriminate H ] end.
+    cbn [bind] in H.
+    match type of H with bind ?r _ = _ => destruct r as [ [[e1 missing'] extra_kw] | ] eqn:E1; [ | discriminate H ] end.
+    cbn [bind] in H.
+    assert (Hnil : Forall P (map snd (@nil (string * A)))) by constructor.
+    destruct (cbind_kw_P _ _ _ _ _ _ _ _ _ Hkw He0 Hnil E1) as [He1 Hxk].
+    destruct (fill_defaults A lit missing' e1) as [ e2 | ] eqn:E2; [ | discriminate H ].
+    cbn [bind] in H.
+    pose proof (fill_defaults_P _ _ _ He1 E2) as He2.
+    change (store_go e2 extra_pos extra_kw (c_store c) [] [] = Ok (args, kws)) in H.
+    eapply store_go_P; [ exact He2 | exact Hxp | exact Hxk | | | exact H ]; constructor.
+  Qed.
+End CtorArgs.
+
+Lemma build_leaf_P T A (lit : pyval -> A) (P : A -> Prop) cls m pos kw l :
+  (forall d, P (lit d)) -> Forall P pos -> Forall P (map snd kw) ->
+  build_leaf T lit cls m pos kw = Ok l -> Forall P (leaf_args l).
+Proof.
+  intros Hlit Hpos Hkw H. unfold build_leaf in H.
+  destruct (find_class (t_classes T) cls) as [ k | ]; [ | discriminate ].
+  destruct (find_ctor T k m) as [ c | ]; [ | discriminate ].
+  destruct (apply_ctor lit c pos kw) as [ [args kws] | ] eqn:E; [ | discriminate ].
+  cbn [bind] in H. inversion H; subst. unfold leaf_args. cbn [l_args l_kwargs].
+  destruct (apply_ctor_P A lit P Hlit c pos kw args kws Hpos Hkw E) as [Ha Hk].
+  apply Forall_app. split; assumption.
+Qed.
+
+Lemma mk_bin_P A (P : A -> Prop) o (x y c : cond A) :
+  Forall P (cond_args x) -> Forall P (cond_args y) -> mk_bin o x y = Ok c -> Forall P (cond_args c).
+Proof.
+  intros Hx Hy H. unfold mk_bin in H.
+  destruct (is_null y); [ inversion H; subst; exact Hx | ].
+  destruct (is_null x); [ inversion H; subst; exact Hy | ].
+  match type of H with (if ?b then _ else _) = _ => destruct b end; [ discriminate | ].
+  inversion H; subst. cbn [cond_args]. apply Forall_app. split; assumption.
+Qed.
+
+Lemma check_args_buildable T : forall pos, check_args T pos = Ok tt -> Forall (arg1_buildable T) pos.
+Proof.
+  induction pos as [ | a r IH ]; intros H; [ constructor | ].
+  cbn [check_args] in H. destruct (check_arg T a) as [ [] | ] eqn:E; [ | discriminate ].
+  cbn [bind] in H. constructor; [ | apply IH; exact H ].
+  destruct a as [ v | tag p ]; cbn [arg1_buildable]; [ exact I | ].
+  cbn [check_arg] in E. unfold id0 in E.
+  destruct (mk_path T (fun v : pyval => v) p) as [ x | ]; [ exists x; reflexivity | discriminate ].
+Qed.
+
+Lemma check_kw_buildable T : forall kw, check_kw T kw = Ok tt -> Forall (arg1_buildable T) (map snd kw).
+Proof.
+  induction kw as [ | [k a] r IH ]; intros H; [ constructor | ].
+  cbn [check_kw] in H. destruct (check_arg T a) as [ [] | ] eqn:E; [ | discriminate ].
+  cbn [bind] in H. cbn [map snd]. constructor; [ | apply IH; exact H ].
+  destruct a as [ v | tag p ]; cbn [arg1_buildable]; [ exact I | ].
+  cbn [check_arg] in E. unfold id0 in E.
+  destruct (mk_path T (fun v : pyval => v) p) as [ x | ]; [ exists x; reflexivity | discriminate ].
+Qed.
+
+Theorem build1_buildable T : forall t c, build1 T t = Ok c -> path_args_buildable T c.
+Proof.
+  assert (G : forall t c, build1 T t = Ok c -> Forall (arg1_buildable T) (cond_args c)).
+  { induction t as [ cls m pos kw | | o a IHa b IHb ]; intros c H; cbn [build1] in H.
+    - destruct (check_args T pos) as [ [] | ] eqn:E1; [ | discriminate ]. cbn [bind] in H.
+      destruct (check_kw T kw) as [ [] | ] eqn:E2; [ | discriminate ]. cbn [bind] in H.
+      destruct (build_leaf T (lit1) cls m pos kw) as [ l | ] eqn:E3; [ | discriminate ]. cbn [bind] in H.
+      inversion H; subst. cbn [cond_args].
+      eapply build_leaf_P; [ | | | exact E3 ].
+      + intros d. exact I.
+      + apply check_args_buildable. exact E1.
+      + apply check_kw_buildable. exact E2.
+    - inversion H; subst. constructor.
+    - destruct (build1 T a) as [ x | ] eqn:Ea; [ | discriminate ]. cbn [bind] in H.
+      destruct (build1 T b) as [ y | ] eqn:Eb; [ | discriminate ]. cbn [bind] in H.
+      eapply mk_bin_P; [ | | exact H ]; auto. }
+  intros t c H a Ha. specialize (G t c H). rewrite Forall_forall in G. apply G. exact Ha.
+Qed.
 
 Print Assumptions cond_eqb_refl.
 Print Assumptions cond_eqb_commute.
